@@ -20,7 +20,8 @@ NAME = 'ack_icartt'
 PROPERTIES = ['C19']
 
 SCHEDULES = ['retain', 'close', 'drop', 'drop+collect']
-MISSING = [-9999, -999, -99999, -8888, -7777777, -9999.0, 9999999, -999.99, 1e30, -1]
+MISSING = [-9999, -999, -99999, -8888, -7777777, -9999.0, 9999999, -999.99, 1e30, -1,
+           9.96921e36, -9.99e35, 1e35, 1e20, -1e34, 9.969209968386869e36, -9.9999e33]
 NAMES = ['O3_ppbv', 'NO2', 'CO_ppbv', 'Temp_K', 'Pressure', 'H2O_gkg', 'RH', 'WindSpeed_ms',
          'a', 'X1_y2_z3', 'NOy_pptv', 'JNO2']
 UNITS = ['ppbv', 'K', 'hPa', 'm s-1', 'g/kg', '%', 'unitless', 'molec cm-3']
@@ -246,7 +247,9 @@ def gen_op(rng, st):
                     'how': rng.choice(['explicit', 'auto'])})
     ops.append(rng.choice([{'op': 'clock_jump', 'seconds': rng.choice([43200, 86400, 31622400])},
                            {'op': 'collect'}]))
-    ops.append({'op': 'second', 'cid': cid, 'from': rng.choice(['ack', 'path'])})
+    ops.append({'op': 'second', 'cid': cid, 'from': rng.choice(['ack', 'path']),
+                # the second output goes to a new path, or over the first output
+                'to': rng.choice(['fresh', 'fresh', 'same'])})
     if rng.random() < 0.4:
         # a file produced by the stub peer (an instrument team): non-unit scale
         # factors, then library read -> write -> read
@@ -347,6 +350,8 @@ def apply(st, op):
                             sig={'error': type(e).__name__})
         ack = w.path('ack_' + op['file'])
         shutil.copyfile(path, ack)
+        seams.stamp_file(path)
+        seams.stamp_file(ack)
         w.fault('crash_at_ack_image')
         st.stats['writes'] += 1
         st.wr[op['cid']] = {'path': path, 'ack': ack, 'handle': h, 'spec': spec, 'truth': truth,
@@ -397,16 +402,30 @@ def apply(st, op):
         try:
             g = _open(src, 'explicit')
             first = canon_from_library(g)
-            p2 = w.path('second_%d.ffi1001' % op['cid'])
+            same = op.get('to') == 'same' and wr['life'] != 'retained'
+            p2 = wr['path'] if same else w.path('second_%d.ffi1001' % op['cid'])
             h2 = pncgen(g, p2, format='ffi1001', verbose=0)
             a2 = p2 + '.ack'
             shutil.copyfile(p2, a2)
+            seams.stamp_file(p2)
+            seams.stamp_file(a2)
             g2 = _open(a2, 'explicit')
             second = canon_from_library(g2)
             try:
                 h2.close()
             except BaseException:
                 pass
+            if same:
+                # the first output's path now holds the second output (usually
+                # with a longer header): it must re-open as what it now is
+                w.probe('second_cycle_overwrote_first_output')
+                seams.stamp_file(p2)
+                g3 = _open(p2, op.get('from') == 'ack' and 'auto' or 'explicit')
+                third = canon_from_library(g3)
+                d3 = compare(second, third, 'first output path after being overwritten')
+                if d3:
+                    raise Violation('overwritten-output-reads-differently',
+                                    '; '.join(x[1] for x in d3[:3]), sig={'field': d3[0][0]})
         except BaseException as e:
             raise Violation('second-cycle-raised', '%s: %s' % (type(e).__name__, e),
                             sig={'error': type(e).__name__})
